@@ -128,5 +128,4 @@ def run(rep, tier, seed):
 
 
 def replay(r):
-    print(r.get("spec"))
-    return 0
+    return t3.replay_generic(r)
